@@ -13,9 +13,9 @@ from .c08 import readme_releases
 
 SHAPES = {
     'VarInt': 'varint', 'VarLong': 'varlong', 'String': 'string',
-    'UnsignedShort': 'i16', 'Short': 'i16', 'Byte': 'i8',
+    'UnsignedShort': 'u16', 'Short': 'i16', 'Byte': 'i8',
     'UnsignedByte': 'i8', 'Integer': 'i32', 'Long': 'i64',
-    'UnsignedLong': 'i64', 'Float': 'f32', 'Double': 'f64',
+    'UnsignedLong': 'u64', 'Float': 'f32', 'Double': 'f64',
     'Boolean': 'bool', 'UUID': 'uuid', 'VarIntPrefixedByteArray': 'bytes',
     'ShortPrefixedByteArray': 'bytes16', 'TrailingByteArray': 'rest',
     'NBT': 'nbt', 'Position': 'i64', 'Angle': 'i8',
